@@ -19,6 +19,7 @@ A case is a dict:
            {'kind': 'other_winner', winner}                  same objects, another reported winner
            {'kind': 'other_contest', winner, bp}             the second IRV contest 'c2' carried by the same cards (c2types)
   c2types  ballot types of a second IRV contest 'c2' (same candidate ids) placed on the same cards
+  rankrep  numeric representation of the rank positions in the CVR dicts (RANK_REPS); the model sees int(rank)
   impl     {'out': [(kind, w, l, elim|None, votes_for_winner, votes_for_loser, difficulty)] | None, 'exc': str|None,
             'objs': the returned assertion objects (not serialised), 'cvrs': the CVR dict given to the code}
 """
@@ -221,10 +222,31 @@ NAME_SCHEMES = [
 AWKWARD = list(range(5, 11))      # indices of the awkward-identifier schemes
 
 
+RANK_REPS = ["int", "np.int64", "np.int32", "np.int8", "np.uint16", "float", "np.float64", "mixed", "batches"]
+
+
+def rank_value(pos, rep, i, nitems):
+    """The rank position `pos` of ballot number i in the numeric representation `rep` (all compare equal to int(pos)):
+    Python int, numpy integers of several widths (what a numpy rank matrix / a pandas column yields), integral floats,
+    'mixed' = representation chosen per ballot, 'batches' = first half numpy int64, second half Python int (two
+    batches merged)."""
+    import numpy as np
+    if rep == "mixed":
+        rep = ("int", "np.int64", "np.int32", "np.int8", "np.uint16")[(3 * i + pos) % 5]
+    elif rep == "batches":
+        rep = "np.int64" if 2 * i < nitems else "int"
+    if rep == "int":
+        return int(pos)
+    if rep == "float":
+        return float(pos)
+    return getattr(np, rep[3:])(pos)
+
+
 def build_inputs(case, rng=None):
     """Contest + cvrs exactly as a caller would build them (dict of ballot id -> {contest: {cand: position}})."""
     _, U, _ = R()
     names = case["names"]
+    rep = case.get("rankrep") or "int"
     cvrs = {}
     items = []
     for b, k in case["types"]:
@@ -236,15 +258,15 @@ def build_inputs(case, rng=None):
         if b is None:
             cvrs[f"b{i}"] = {"other": {names[0]: 0}}        # a CVR without this contest (ranks our candidate first elsewhere)
         else:
-            rec = {CONTEST: {names[c]: pos for pos, c in enumerate(b)}}
+            rec = {CONTEST: {names[c]: rank_value(pos, rep, i, len(items)) for pos, c in enumerate(b)}}
             if i % 5 == 0:
                 rec["other"] = {names[-1]: 0, names[0]: 1}    # another contest on the same card is ignored
             cvrs[f"b{i}"] = rec
     items2 = []
     for b, k in case.get("c2types") or []:
         items2 += [b] * k
-    for (bid, rec), b in zip(cvrs.items(), items2):       # a second IRV contest with the same candidate ids on the same cards
-        rec["c2"] = {names[c]: pos for pos, c in enumerate(b)}
+    for j, ((bid, rec), b) in enumerate(zip(cvrs.items(), items2)):   # a second IRV contest with the same candidate ids on the same cards
+        rec["c2"] = {names[c]: rank_value(pos, rep, j, len(items2)) for pos, c in enumerate(b)}
     order = [names[c] for c in case["order"]] if case.get("order") is not None else []
     contest = U.Contest(CONTEST, list(names), names[case["winner"]], case["tot"], order=order)
     return contest, cvrs
@@ -487,7 +509,8 @@ def gen_case(rng, n=None, maxb=60):
         order, ok = list(range(n)), "identity"
     return gen_before(rng, {"n": n, "names": rng.choice(NAME_SCHEMES)(n), "types": types, "nocontest": nocontest, "tot": tot,
             "winner": winner, "bp": rng.random() < 0.5, "exact": rng.random() < 0.5, "order": order,
-            "second": rng.random() < 0.1, "log": rng.random() < 0.03, "tag": f"{style}/{wk}/hint-{ok}",
+            "second": rng.random() < 0.1, "log": rng.random() < 0.03,
+            "rankrep": "int" if rng.random() < 0.5 else rng.choice(RANK_REPS[1:]), "tag": f"{style}/{wk}/hint-{ok}",
             "possible_winners": winners})
 
 
@@ -569,6 +592,7 @@ def large_case(rng):
     return {"n": n, "names": rng.choice(NAME_SCHEMES)(n), "types": tl, "nocontest": 0,
             "tot": nb + (rng.randint(1, 100) if rng.random() < 0.3 else 0), "winner": winner,
             "bp": rng.random() < 0.5, "exact": rng.random() < 0.5, "order": hint, "second": False, "log": False,
+            "rankrep": rng.choice(RANK_REPS),
             "tag": f"large/{'right' if winners == [winner] else 'tied' if winner in winners else 'wrong'}/hint-{'true' if hint else 'none'}",
             "possible_winners": winners}
 
@@ -593,7 +617,8 @@ def exhaustive_cases(max_c=3, max_b=4, winners="all", dfuns=(False, True), hints
                         for h in hints:
                             k = len(cases)
                             scheme = NAME_SCHEMES[0] if k % 3 else NAME_SCHEMES[AWKWARD[(k // 3) % len(AWKWARD)]]
-                            cases.append({"n": n, "names": scheme(n), "types": tl, "nocontest": 0, "tot": nb,
+                            rep = RANK_REPS[(k // 4) % len(RANK_REPS)] if k % 4 == 1 else "int"
+                            cases.append({"n": n, "names": scheme(n), "types": tl, "nocontest": 0, "tot": nb, "rankrep": rep,
                                           "winner": w, "bp": bp, "exact": True, "order": h(n) if h else None,
                                           "second": False, "tag": "exhaustive"})
     return cases
@@ -653,7 +678,8 @@ def inputs_json(case):
     return {"candidates": C.jsonable(case["names"]), "ballot_types(indices into candidates, multiplicity)":
             [[list(b), k] for b, k in case["types"]], "cvrs_without_contest": case.get("nocontest", 0),
             "tot_ballots": case["tot"], "winner_index": case["winner"], "asn_func": ("bp" if case["bp"] else "cp") +
-            ("_fraction" if case["exact"] else "_estimate"), "order_hint": case.get("order")}
+            ("_fraction" if case["exact"] else "_estimate"), "order_hint": case.get("order"),
+            "rank_representation": case.get("rankrep") or "int"}
 
 
 def algo_lit(case):
@@ -685,6 +711,7 @@ def case_json(case):
             "tot_ballots": case["tot"], "winner_index": case["winner"], "asn_func": ("bp" if case["bp"] else "cp") +
             ("_fraction" if case["exact"] else "_estimate"), "order_hint": case.get("order"),
             "second_call_on_same_objects": case.get("second", False), "log": case.get("log", False), "tag": case.get("tag"),
+            "rank_representation": case.get("rankrep") or "int",
             "calls_before_in_same_process": C.jsonable(case.get("before")), "second_contest_c2_on_same_cards": C.jsonable(case.get("c2types")),
             "cases_run_earlier_in_this_process": o.get("position_in_process"),
             "impl_output": C.jsonable(o["out"]), "impl_exc": o["exc"]}
@@ -699,6 +726,7 @@ def case_from_json(j):
             "nocontest": j.get("cvrs_without_contest", 0), "tot": j["tot_ballots"], "winner": j["winner_index"],
             "bp": fn.startswith("bp"), "exact": fn.endswith("_fraction"), "order": j.get("order_hint"),
             "second": j.get("second_call_on_same_objects", False), "log": j.get("log", False),
+            "rankrep": j.get("rank_representation") or "int",
             "before": [dict(b, types=[(tuple(x), k) for x, k in b["types"]]) if "types" in b else b
                        for b in (j.get("calls_before_in_same_process") or [])] or None,
             "c2types": [(tuple(x), k) for x, k in (j.get("second_contest_c2_on_same_cards") or [])] or None, "tag": "replay/" + "/".join((j.get("tag") or "").split("/")[1:])}
@@ -830,6 +858,7 @@ def stats(cases):
             inc("second call on the same Contest/cvrs")
         if c.get("log"):
             inc("log=True")
+        inc("ranks as " + (c.get("rankrep") or "int"))
         for b in c.get("before") or []:
             inc("preceded in-process by " + b["kind"])
         if c.get("c2types"):
